@@ -27,8 +27,8 @@ CONSTANTS Keys,        \* key names (strings from the table Chars below)
           MaxNodes,    \* entries (leaves + sub-dictionaries) in the whole tree
           DedupMode    \* "fullpath" | "firstchar"
 
-VARIABLES tree, sep, pc, flat, empties, back, mode, result
-vars == <<tree, sep, pc, flat, empties, back, mode, result>>
+VARIABLES tree, sep, pc, flat, empties, back, todo, result
+vars == <<tree, sep, pc, flat, empties, back, todo, result>>
 
 Chars(k) == CASE k = "a" -> <<"a">> [] k = "b" -> <<"b">> [] k = "x" -> <<"x">>
               [] k = "ab" -> <<"a", "b">> [] k = "ac" -> <<"a", "c">> [] k = "ba" -> <<"b", "a">>
@@ -132,7 +132,7 @@ Unflat(items, emps, s) ==
 
 (* replace_with_matching_or_default(x, replace, default): the replacement holds the leaves
    selected by the mode (plus, for "extra", one flat key that x does not have) *)
-Modes == {"all", "none", "alt", "extra", "extra_unchecked"}
+Modes == <<"all", "none", "alt", "extra", "extra_unchecked">>
 Selected(items, m) == {i \in 1..Len(items) :
                          \/ m \in {"all", "extra", "extra_unchecked"}
                          \/ (m = "alt" /\ i % 2 = 1)}
@@ -143,23 +143,28 @@ ReplaceResult(items, m) ==
 -----------------------------------------------------------------------------
 Init == /\ tree \in Trees /\ sep \in Seps
         /\ pc = "new" /\ flat = <<>> /\ empties = <<>> /\ back = EmptyDict
-        /\ mode = "" /\ result = <<>>
+        /\ todo = Modes /\ result = [m \in {} |-> <<>>]
 
 FlattenReject == /\ pc = "new" /\ HasSep(tree, sep)
-                 /\ pc' = "rejected" /\ UNCHANGED <<tree, sep, flat, empties, back, mode, result>>
+                 /\ pc' = "rejected" /\ UNCHANGED <<tree, sep, flat, empties, back, todo, result>>
 Flatten == /\ pc = "new" /\ ~HasSep(tree, sep)
            /\ LET f == Flat(tree, sep)
               IN  /\ flat' = f.items /\ empties' = f.empties
                   /\ pc' = IF DupDetected(f) THEN "duplicate" ELSE "flat"
-           /\ UNCHANGED <<tree, sep, back, mode, result>>
+           /\ UNCHANGED <<tree, sep, back, todo, result>>
 Unflatten == /\ pc = "flat"
              /\ back' = Unflat(flat, empties, sep)
-             /\ pc' = "back" /\ UNCHANGED <<tree, sep, flat, empties, mode, result>>
-Replace(m) == /\ pc = "back"
-              /\ mode' = m
-              /\ result' = IF m = "extra" THEN <<"ValueError">> ELSE ReplaceResult(flat, m)
-              /\ pc' = "done" /\ UNCHANGED <<tree, sep, flat, empties, back>>
-Next == FlattenReject \/ Flatten \/ Unflatten \/ \E m \in Modes : Replace(m)
+             /\ pc' = "back" /\ UNCHANGED <<tree, sep, flat, empties, todo, result>>
+(* one call per mode; with check_used_all_replace_keys a replacement key unknown to x is an error *)
+Replace == /\ pc = "back" /\ todo # <<>>
+           /\ LET m == Head(todo)
+              IN  result' = [q \in DOMAIN result \cup {m} |->
+                               IF q # m THEN result[q]
+                               ELSE IF m = "extra" THEN <<"ValueError">> ELSE ReplaceResult(flat, m)]
+           /\ todo' = Tail(todo)
+           /\ pc' = IF Len(todo) = 1 THEN "done" ELSE "back"
+           /\ UNCHANGED <<tree, sep, flat, empties, back>>
+Next == FlattenReject \/ Flatten \/ Unflatten \/ Replace
 Spec == Init /\ [][Next]_vars
 
 -----------------------------------------------------------------------------
@@ -176,16 +181,18 @@ FlatInjective == (pc # "new" /\ ~HasSep(tree, sep)) =>
 NoSpuriousDuplicate == pc # "duplicate"
 RejectIffSep == (pc = "rejected") <=> (pc # "new" /\ HasSep(tree, sep))
 RoundTrip == pc \in {"back", "done"} => back = Canon(tree, <<>>)
-ReplaceKeepsStructure == (pc = "done" /\ mode # "extra") =>
-  /\ {result[i].path : i \in 1..Len(result)} = LeafPaths(tree)
-  /\ Len(result) = Cardinality(LeafPaths(tree))
+ReplaceKeepsStructure == \A m \in DOMAIN result : m # "extra" =>
+  /\ {result[m][i].path : i \in 1..Len(result[m])} = LeafPaths(tree)
+  /\ Len(result[m]) = Cardinality(LeafPaths(tree))
+  /\ (m \in {"all", "extra_unchecked"} => \A i \in 1..Len(result[m]) : result[m][i].src = "replace")
+  /\ (m = "none" => \A i \in 1..Len(result[m]) : result[m][i].src = "default")
 
 PathSeq(S) == LET RECURSIVE Conv(_)
                   Conv(T) == IF T = {} THEN <<>> ELSE LET p == CHOOSE q \in T : TRUE IN <<p>> \o Conv(T \ {p})
               IN  Conv(S)
 Export == pc \in {"done", "rejected", "duplicate"} =>
   PrintT(<<"CASE", ToJson([
-     sep |-> sep, verdict |-> pc, mode |-> mode,
+     sep |-> sep, verdict |-> pc,
      leaves |-> PathSeq(LeafPaths(tree)), empty |-> PathSeq(EmptyPaths(tree)),
      flat |-> [i \in 1..Len(flat) |-> [key |-> flat[i].key, path |-> flat[i].tag]],
      emptykeys |-> empties,
